@@ -252,28 +252,32 @@ SCHEMA_RULE = ("A: every history of <= MaxLen public mutator calls of RSForm gen
                "after every call. non-trivial = history of >= 2 calls; distinct = distinct history. ")
 
 
-def schema_plan(ctx, props, presets):
+def schema_plan(ctx, props, presets, trace=False):
     b = vcore.build()
     h = hbin(b, "h_schema")
-    ctx.rule = SCHEMA_RULE
+    ctx.rule = SCHEMA_RULE + ("B: random histories of 200 steps over up to 12 constituents (identifier order policy by seed) recorded from the "
+                              "real RSForm and validated event by event by Trace_Schema (content, Analysis, SchemaInv)." if trace else "")
     ctx.constants = {}
     for pr in presets:
         cfg = "Gen_Schema_%s%s.cfg" % ("q" if ctx.quick else "t", pr)
         ctx.constants[cfg] = open(os.path.join(vcore.TLA, cfg)).read().split("SPECIFICATION")[0].split()
         ctx.replay("Gen_Schema.tla", cfg, h, ["--props", ",".join(props)], tag=cfg[:-4], timeout=3400, xss="64m", xmx="12g")
     ctx.exhaustive = True
+    if trace:
+        ntr = 12 if ctx.quick else 120
+        trace_stage(ctx, h, ["--record", str(ntr), "--steps", "200", "--cst", "12"], "Trace_Schema.tla", "Trace_Schema.cfg", n_traces=ntr)
 
 
 def plan_C09(ctx):
     ctx.assumptions = ["INVARIANT SchemaInv is checked by TLC on the specification for the same histories (model level)",
                        "exact re-issued aliases / list positions are compared at drift level; the property level is the invariants on the projected implementation state and 'refused => unchanged'"]
-    schema_plan(ctx, ["C09"], ["9", "8"])
+    schema_plan(ctx, ["C09"], ["9", "9d", "8"], trace=True)
 
 
 def plan_C07(ctx):
     ctx.assumptions = ["from-scratch analysis is (i) Schema.tla's Analysis (least fixpoint over RSTyping) and (ii) a copy reloaded from the saved document",
                        "resolved term / definition texts are compared only when term references are acyclic"]
-    schema_plan(ctx, ["C07"], ["7a", "7b", "9"])
+    schema_plan(ctx, ["C07"], ["7a", "7b", "9", "8"], trace=True)
 
 
 def plan_C08(ctx):
@@ -313,7 +317,8 @@ HARNESS_OF = {"C14": "h_graph", "C20": "h_strings", "C16": "h_sdcompact", "C15":
               "C01": "h_lang", "C02": "h_lang", "C03": "h_lang", "C05": "h_lang", "C06": "h_lang"}
 TRACE_SPEC_OF = {"C14": ("Trace_C14.tla", "Trace_C14.cfg"), "C20": ("Trace_C20.tla", "Trace_C20.cfg"),
                  "C16": ("Trace_C16.tla", "Trace_C16.cfg"), "C15": ("Trace_C15.tla", "Trace_C15.cfg"),
-                 "C17": ("Trace_C17.tla", "Trace_C17.cfg"), "C04": ("Trace_C04.tla", "Trace_C04.cfg")}
+                 "C17": ("Trace_C17.tla", "Trace_C17.cfg"), "C04": ("Trace_C04.tla", "Trace_C04.cfg"),
+                 "C07": ("Trace_Schema.tla", "Trace_Schema.cfg"), "C09": ("Trace_Schema.tla", "Trace_Schema.cfg")}
 
 
 def replay(pid, path):
